@@ -54,6 +54,7 @@ static const char *g_cmpname = "bw";
 static ldb_bloom_t *g_bloom = NULL;
 static ldb_lru_t *g_cache = NULL;
 static int g_structural = 0;
+static int g_verify = 0;   /* read with verify_checksums */
 #define MAXSNAP 64
 static const ldb_snapshot_t *g_snap[MAXSNAP];
 static uint64_t g_dumped[1 << 16]; static int g_ndumped = 0;
@@ -440,7 +441,7 @@ static void handle(char *line) {
     if (g_db) { wait_quiescent(); flush_bg_events(); g_structural = 0; dump_ver(); dump_mem("mem", g_db->mem); }
   } else if (nf == 1 && !strcmp(f[0], "close")) {
     int i;
-    if (!g_db) { printf("err not open\n"); return; }
+    if (!g_db) { printf("closed close\n"); return; }
     for (i = 0; i < MAXIT; i++) if (g_it[i]) { ldb_iter_destroy(g_it[i]); g_it[i] = NULL; }
     for (i = 0; i < MAXSNAP; i++) if (g_snap[i]) { ldb_release(g_db, g_snap[i]); g_snap[i] = NULL; }
     wait_quiescent(); flush_bg_events();
@@ -505,6 +506,64 @@ static void handle(char *line) {
     do_ls();
   } else if (nf == 1 && !strcmp(f[0], "expectfail")) {
     printf("expectfail\n");
+  } else if (nf == 5 && !strcmp(f[0], "corruptcopy")) {
+    /* corruptcopy <srcdir> <dstdir> <file-kind: ldb|log|MANIFEST|CURRENT>:<index> <mutation>
+       copy the closed database and damage one file of the copy; mutation = x:<pos>:<mask> | s:<pos>:<val> | t:<pos> | z:<pos>:<len>
+       with <pos> = absolute offset or p<permille> of the file size */
+    char **names = NULL; int n, i, idx = 0, hit = -1, cnt = 0; char kind[32]; char src[1024], dst[1024]; char *colon;
+    if (g_db) { printf("err corruptcopy needs a closed db\n"); return; }
+    snprintf(kind, sizeof(kind), "%s", f[3]); colon = strchr(kind, ':'); if (colon) { *colon = 0; idx = atoi(colon + 1); }
+    snprintf(src, sizeof(src), "rm -rf '%s' && mkdir -p '%s'", f[2], f[2]); if (system(src) != 0) { /* ignore */ }
+    n = ldb_get_children(f[1], &names);
+    { int a, b; for (a = 0; a < n; a++) for (b = a + 1; b < n; b++) if (strcmp(names[a], names[b]) > 0) { char *t = names[a]; names[a] = names[b]; names[b] = t; } }
+    for (i = 0; i < n; i++) {
+      FILE *in, *out; static unsigned char buf[1 << 16]; size_t r;
+      if (!strcmp(names[i], ".") || !strcmp(names[i], "..") || !strcmp(names[i], "LOCK") || !strncmp(names[i], "LOG", 3) || !strcmp(names[i], "lost")) continue;
+      snprintf(src, sizeof(src), "%s/%s", f[1], names[i]); snprintf(dst, sizeof(dst), "%s/%s", f[2], names[i]);
+      in = fopen(src, "rb"); out = fopen(dst, "wb");
+      if (in && out) while ((r = fread(buf, 1, sizeof(buf), in)) > 0) fwrite(buf, 1, r, out);
+      if (in) fclose(in); if (out) fclose(out);
+      if (strstr(names[i], kind) != NULL) { if (cnt == idx || hit < 0) hit = i; cnt++; }
+    }
+    if (hit >= 0) {
+      struct stat st; unsigned long long pos = 0, a = 0; char m = f[4][0]; const char *p = f[4] + 2; FILE *fp;
+      snprintf(dst, sizeof(dst), "%s/%s", f[2], names[hit]);
+      if (stat(dst, &st) != 0) st.st_size = 0;
+      if (*p == 'p') { pos = (unsigned long long)st.st_size * strtoull(p + 1, NULL, 10) / 1000ULL; } else pos = strtoull(p, NULL, 10);
+      { const char *q = strchr(p, ':'); if (q) a = strtoull(q + 1, NULL, 10); }
+      if (m == 't') { if (truncate(dst, (off_t)(pos < (unsigned long long)st.st_size ? pos : (unsigned long long)st.st_size)) != 0) { /* ignore */ } }
+      else if (st.st_size > 0 && (fp = fopen(dst, "r+b")) != NULL) {
+        unsigned char c = 0; if (pos >= (unsigned long long)st.st_size) pos = st.st_size - 1;
+        fseek(fp, (long)pos, SEEK_SET);
+        if (m == 'z') { unsigned long long k; for (k = 0; k < a && pos + k < (unsigned long long)st.st_size; k++) fputc(0, fp); }
+        else { if (fread(&c, 1, 1, fp) != 1) c = 0; fseek(fp, (long)pos, SEEK_SET); fputc(m == 'x' ? (c ^ (unsigned char)a) : (unsigned char)a, fp); }
+        fclose(fp);
+      }
+      printf("corrupt %s %s %s size=%llu pos=%llu\n", !strcmp(kind, "ldb") ? "table" : (!strcmp(kind, "log") ? "log" : (!strcmp(kind, "MANIFEST") ? "manifest" : "current")), names[hit], f[4], (unsigned long long)st.st_size, pos);
+    } else printf("corrupt none - %s size=0 pos=0\n", f[4]);
+    if (n >= 0) ldb_free_children(names, n);
+  } else if (nf == 1 && !strcmp(f[0], "scanall")) {
+    /* full forward and backward scan with checksum verification: status + what was seen */
+    ldb_readopt_t ro = *ldb_readopt_default; ldb_iter_t *it; int dirn;
+    if (!g_db) { printf("scanall closed\n"); return; }
+    ro.verify_checksums = 1;
+    for (dirn = 0; dirn < 2; dirn++) {
+      int first = 1;
+      it = ldb_iterator(g_db, &ro);
+      printf("scan %s ", dirn ? "bwd" : "fwd");
+      for (dirn ? ldb_iter_last(it) : ldb_iter_first(it); ldb_iter_valid(it); dirn ? ldb_iter_prev(it) : ldb_iter_next(it)) {
+        ldb_slice_t k = ldb_iter_key(it), v = ldb_iter_value(it);
+        if (!first) fputc(',', stdout); first = 0;
+        print_hex(stdout, k.data, k.size); fputc('=', stdout); val_token(stdout, v.data, v.size);
+      }
+      if (first) fputc('.', stdout);
+      printf(" status=%d\n", ldb_iter_status(it));
+      ldb_iter_destroy(it);
+    }
+    after_op();
+  } else if (nf == 2 && !strcmp(f[0], "verify")) {
+    g_verify = atoi(f[1]);
+    printf("verify %d\n", g_verify);
   } else if (nf == 2 && !strcmp(f[0], "repair")) {
     /* repair <variant>: db must be closed.  variant 0: MANIFEST-* and CURRENT removed; 1: only CURRENT removed;
        2: MANIFEST cut in half; 3: nothing removed (repair of an intact database) */
@@ -564,7 +623,7 @@ static void handle(char *line) {
     if (g_journal) jprint_new();
     crash_points(n, n, 1, f[2], f[3], nf == 5);
   } else if (!g_db) {
-    printf("err not open\n");
+    printf("closed %s\n", f[0]);
   } else if ((nf == 3 || nf == 4) && !strcmp(f[0], "put")) {
     char *ops = malloc(strlen(f[1]) + strlen(f[2]) + 8); sprintf(ops, "p:%s:%s", f[1], f[2]);
     do_write(ops, nf == 4); free(ops); after_op();
@@ -578,6 +637,7 @@ static void handle(char *line) {
     if (!parse_bytes(f[1], &g_a)) { printf("err bad key\n"); return; }
     if (sid >= 0 && (sid >= MAXSNAP || !g_snap[sid])) { printf("err bad snap\n"); return; }
     if (sid >= 0) { ro.snapshot = g_snap[sid]; seq = g_snap[sid]->sequence; } else seq = g_db->versions->last_sequence;
+    ro.verify_checksums = g_verify;
     k = ldb_slice(g_a.p, g_a.n);
     rc = ldb_get(g_db, &k, &v, &ro);
     printf("get "); print_hex(stdout, g_a.p, g_a.n); printf(" %llu ", (unsigned long long)seq);
